@@ -33,6 +33,7 @@ def build_op(api, spec, acc_enum):
     k = spec["kind"]
     if k == "dma":
         op = api.NpuDmaOperation(api.NpuAddressRange(*spec["src"]), api.NpuAddressRange(*spec["dst"]))
+        op.channel, op.mode = spec.get("channel", 0), spec.get("mode", 0)
         return op
     if k == "conv":
         op = api.NpuConv2DOperation()
@@ -41,8 +42,13 @@ def build_op(api, spec, acc_enum):
         op = api.NpuConvDepthWiseOperation()
     elif k == "pool":
         op = api.NpuPoolingOperation(getattr(api.NpuPoolingOp, spec["sub"]))
-        if spec.get("rescale") is not None:
-            op.rescale = spec["rescale"]
+        r = spec.get("rescale")
+        if isinstance(r, dict):  # Vela-internal explicit scaling (what the compiler itself passes for fused rescales)
+            from ethosu.vela.operation import ExplicitScaling
+
+            op.rescale = ExplicitScaling(bool(r.get("per_channel")), list(r["shift"]), list(r["mult"]))
+        elif r is not None:
+            op.rescale = r
     elif k == "elementwise":
         op = api.NpuElementWiseOperation(getattr(api.NpuElementWiseOp, spec["sub"]))
         op.reversed_operands = bool(spec.get("reversed"))
